@@ -280,6 +280,9 @@ ProcessExecutionPayload(st, blk) ==
                /\ h.prev_randao = RandaoMix(st, CurEpoch(st))
                /\ h.timestamp = ComputeTimestampAtSlot(st, st.slot)
                /\ (AtLeast(st, "deneb") => blk.n_commitments <= P.MAX_BLOBS_PER_BLOCK)
+               \* bounds of the payload's SSZ list / byte-list types
+               /\ pl.n_transactions <= P.MAX_TRANSACTIONS_PER_PAYLOAD
+               /\ pl.extra_data_len <= P.MAX_EXTRA_DATA_BYTES
                /\ pl.engine_ok,
                [st EXCEPT !.leph = h])
 
